@@ -5,7 +5,7 @@
 From Hive.Base Require Import Prelude.
 From Hive.Model Require Import Types KernelBase SimOps States Step Harness.
 From Hive.Gen Require Import Kernels.
-From Hive.Proofs Require Import VehFrame Macro Guards Count CountInv DispInv PlaceInv LedgerInv.
+From Hive.Proofs Require Import VehFrame Macro Guards Count CountInv DispInv PlaceInv LedgerInv AcctInv.
 Local Open Scope Z_scope.
 
 Definition all_entries {A} (f : positive -> A -> bool) (m : pmap A) : bool := forallb (fun kv => f (fst kv) (snd kv)) (PM.elements m).
@@ -167,6 +167,17 @@ Definition ledger_b (init : id -> rstatus) (s : Sim) : bool :=
           (map fst (PM.elements (requests s)) ++ flat_map ev_rid (log s)).
 Definition nil_log_b (s : Sim) : bool := match log s with [] => true | _ => false end.
 
+(* ---- C05 / C19 books (conclusion evaluated as a consistency check) ---- *)
+Definition books_b (s0 s : Sim) : bool :=
+  all_entries (fun k v0 => match find k (vehicles s) with
+     | Some v => Qeq_bool (v_odo v) (v_odo v0 + total ev_moved (log s) k) && Qeq_bool (v_gained v) (v_gained v0 + total ev_charged (log s) k)
+                 && Qeq_bool (v_balance v) (v_balance v0 + total ev_fare (log s) k - total ev_paid (log s) k)
+     | None => false end) (vehicles s0)
+  && all_entries (fun k x0 => match find k (stations s) with
+     | Some x => Qeq_bool (s_balance x) (s_balance x0 + total ev_recv (log s) k) && Qeq_bool (s_disp_e x) (s_disp_e x0 + total (ev_disp Electric) (log s) k)
+                 && Qeq_bool (s_disp_g x) (s_disp_g x0 + total (ev_disp Gasoline) (log s) k)
+     | None => false end) (stations s0).
+
 (* 0: not a history over the step alphabet; 1: some premise fails; 2: premises hold and the conclusions evaluate to true on the
    model's final state; 3: premises hold, a conclusion evaluates to false (would contradict the theorems) *)
 Definition premises_case (env : Env) (s : Sim) (ops : list (XOp * tok)) (_ : Z) : Z :=
@@ -175,18 +186,21 @@ Definition premises_case (env : Env) (s : Sim) (ops : list (XOp * tok)) (_ : Z) 
   | Some os =>
       if all_inv_b s && nil_log_b s && forallb op_ok_b os then
         let s' := fold_left (fun a o => norm_sim (step_op env a o)) os s in
-        if all_inv_b s' && ledger_b (init_of s) s' then 2 else 3
+        if all_inv_b s' && ledger_b (init_of s) s' && books_b s s' then 2 else 3
       else 1
   end.
 
 (* premises decided true => every history theorem applies (this is what code 2 / 3 certify about the case) *)
 Theorem premises_apply env s os : (forall g, e_fence env g = true) -> all_inv_b s && nil_log_b s && forallb op_ok_b os = true ->
-  let s' := fold_left (step_op env) os s in vkeys s' /\ Inv_counts s' /\ Inv_disp s' /\ Inv_place s' /\ Inv_ledger (init_of s) s'.
+  let s' := fold_left (step_op env) os s in vkeys s' /\ Inv_counts s' /\ Inv_disp s' /\ Inv_place s' /\ Inv_ledger (init_of s) s' /\
+  (forall k v0, find k (vehicles s) = Some v0 -> exists v, find k (vehicles s') = Some v /\ vacct (log s') k v0 v) /\
+  (forall k x0, find k (stations s) = Some x0 -> exists x, find k (stations s') = Some x /\ sacct (log s') k x0 x).
 Proof.
   intros Hf H. unfold all_inv_b in H. rewrite !andb_true_iff in H. destruct H as [[[[[K C] D] P] NL] O].
   apply vkeys_b_sound in K. apply inv_counts_b_sound in C. apply inv_disp_b_sound in D. apply inv_place_b_sound in P. apply ops_ok_b_sound in O.
   assert (L : log s = []) by (unfold nil_log_b in NL; destruct (log s); [reflexivity|discriminate]).
   cbv zeta. split; [apply (counts_invariant env os s K C O)|]. split; [apply (counts_invariant env os s K C O)|].
   split; [apply (disp_invariant env Hf os s K D O)|]. split; [apply (place_invariant env os s K P O)|].
-  apply (ledger_invariant env (init_of s) os s K (Inv_ledger_initial s L) O).
+  split; [apply (ledger_invariant env (init_of s) os s K (Inv_ledger_initial s L) O)|].
+  apply (books_over_histories env os s K (proj1 C) O L).
 Qed.
